@@ -519,6 +519,11 @@ func toInt(v any) (int, bool, bool) {
 	case json.Number:
 		i, err := v.Int64()
 		if err != nil {
+			// not written as a plain integer: 1e2 and 100.0 are integers too
+			if d, err := decimal128.Parse(v.String()); err == nil {
+				return toInt(d)
+			}
+
 			if _, err = v.Float64(); err != nil {
 				return 0, false, false
 			}
